@@ -32,11 +32,11 @@ theorem stage_scrub (T q i : String) (d : List (String × J))
     rw [hlk]
     simp [J.eraseKey, eraseKey_not_mem hid]
   have hclean0 : clean [(T, ["id"])] [] (("id", J.str i) :: d) = (d, false) := by
-    rw [clean, hhere, hdne]
+    rw [clean_nil, hhere, hdne]
   have hlq : J.lookup q [(q, J.obj (("id", J.str i) :: d))] = some (J.obj (("id", J.str i) :: d)) := by
     simp [J.lookup]
   simp only [cleanAll, List.foldl_cons, List.foldl_nil, unhash, List.isEmpty_cons, Bool.false_eq_true, ↓reduceIte]
-  rw [clean, hlq]
+  rw [clean_cons, hlq]
   simp only [hclean0, Bool.false_eq_true, ↓reduceIte, J.setKey]
 
 /-- **Stage 5 — the pipeline**: for every member of the family and every downstream that answers
